@@ -161,6 +161,8 @@ fn main() {
     let nshards = args.u64("shards", 8) as usize;
     let families = args.str("families", "rand,large,shapes,compat,sets,edges,hostile,protoedge,corpus");
     let harness = args.str("harness", "/verif/harness");
+    let compile_only = args.flag("compile-only");
+    let mut group_index: Vec<serde_json::Value> = Vec::new();
     let exclude: Vec<String> = args.get("exclude").map(|s| s.split(',').map(|x| x.to_string()).collect()).unwrap_or_default();
     monitors::journal::install();
 
@@ -177,6 +179,10 @@ fn main() {
             "hostile" => families::hostile(&mut groups),
             "protoedge" => families::protoedge(&mut groups),
             "corpus" => {}
+            "c09kw" => families::c09_keywords(&mut groups),
+            "c09col" => families::c09_collisions(&mut groups),
+            "c09const" => families::c09_consts(&mut groups),
+            "c09rand" => families::c09_random(&mut groups, &mut rng, &tier),
             other => eprintln!("unknown family {}", other),
         }
     }
@@ -195,11 +201,13 @@ fn main() {
         let gname = format!("g_{}", gi);
         if exclude.contains(&gname) {
             rejected.push(json!({"group": gname, "family": g.family, "reason": "excluded after a compile error (C09 observation)"}));
+            group_index.push(json!({"group": gname, "family": g.family, "excluded": true, "note": g.notes.get("c09").cloned().unwrap_or(serde_json::Value::Null), "asn1": g.modules.iter().map(print_module).collect::<Vec<_>>()}));
             continue;
         }
         let emitted = match emit_group(g, &scratch) {
             Ok(e) => e,
             Err(reason) => {
+                group_index.push(json!({"group": gname, "family": g.family, "rejected": reason, "note": g.notes.get("c09").cloned().unwrap_or(serde_json::Value::Null), "asn1": g.modules.iter().map(print_module).collect::<Vec<_>>()}));
                 rejected.push(json!({"group": gname, "family": g.family, "reason": reason, "asn1": g.modules.iter().map(print_module).collect::<Vec<_>>()}));
                 continue;
             }
@@ -222,6 +230,11 @@ fn main() {
             mod_paths.insert(*mi, format!("{}::{}", gname, modname));
         }
         let _ = writeln!(shard_mods[shard], "}}");
+        group_index.push(json!({"group": gname, "family": g.family, "shard": shard, "inline_macro": g.inline_macro, "note": g.notes.get("c09").cloned().unwrap_or(serde_json::Value::Null),
+            "asn1": g.modules.iter().map(print_module).collect::<Vec<_>>(), "files": emitted.files.iter().map(|f| f.1.clone()).collect::<Vec<_>>()}));
+        if compile_only {
+            continue;
+        }
         for (mi, m) in g.modules.iter().enumerate() {
             let path = match mod_paths.get(&mi) {
                 Some(p) => p.clone(),
@@ -318,6 +331,9 @@ fn main() {
     );
     let template = std::fs::read_to_string(format!("{}/zoorun-template/main.rs", harness)).expect("zoorun template");
     write_if_changed(&out.join("zoorun/src/main.rs"), &template.replace("/*DISPATCH*/", &dispatch));
+    if compile_only {
+        write_if_changed(&out.join("groups.json"), &serde_json::to_string(&group_index).unwrap());
+    }
     write_if_changed(
         &out.join("schema.json"),
         &serde_json::to_string(&json!({"tier": tier, "seed": seed, "universes": universes, "types": types, "rejected": rejected, "protos": protos})).unwrap(),
